@@ -351,6 +351,7 @@ def recipes(tier='quick'):
                 lambda axes=axes, pad=pad: odl.trafos.WaveletTransform(w2, 'haar', nlevels=1, pad_mode=pad, axes=axes).inverse)
     add('WaveletTransform', {'wavelet': 'db2', 'pad_mode': 'pywt_periodic'},
         lambda: odl.trafos.WaveletTransform(odl.uniform_discr(0, 1, 8), 'db2', nlevels=1, pad_mode='pywt_periodic'))
+    recipes.n_first = len(R)           # recipes of the first catalogue version (opcatalog derives all forms of these)
     wide_recipes(tier, add)
     return R
 
@@ -902,7 +903,11 @@ def wide_recipes_3(tier, add):
             kw = {'range': sp} if c['range'] == 'given' else {}
             if c['pad_const'] != 'zero':
                 kw['pad_const'] = 1.5
-            return odl.Laplacian(sp, pad_mode=c['pad_mode'], **kw)
+            op = odl.Laplacian(sp, pad_mode=c['pad_mode'], **kw)
+            if not op.is_linear:
+                # constant padding with a non-zero constant is affine: once the operator says so it belongs to nlops only
+                raise NotImplementedError('flagged nonlinear: no adjoint is claimed')
+            return op
         add('Laplacian', _o(c, lab, 'pad_mode', 'range', 'pad_const'), mk)
 
     # ---------------------------------------------------------------- ResizingOperator
@@ -917,8 +922,9 @@ def wide_recipes_3(tier, add):
             return False
         if c['how'] == 'range' and (c['offset'] != 'default' or c['discr_kwargs'] != 'none'):
             return False
-        if c['pad_mode'] == 'order1' and c['shape'] == '2d' and c['dir'] in ('extend', 'mixed'):
-            return True
+        if c['dir'] == 'restrict' and (c['pad_mode'] == 'symmetric' or (c['shape'] == '2d' and c['pad_mode'] == 'order1')):
+            # .inverse pads the small range back: symmetric padding by >= its size / order1 on an axis of length 1 is rejected
+            return False
         return True
 
     def rs_mk(sp, c):
